@@ -355,26 +355,37 @@ def weeklyLookup (wk : List (List TV)) (w : Nat) : Except SErr (List TV) :=
 
 def slotList (sl : Slots) : List Slot := (List.range 16).map sl
 
+/-- `if sched_obj.exceptionSchedule:` — None and the empty array both mean no iterations -/
+def excList (cfg : Cfg) : List SpecialEvent :=
+  match cfg.exc with
+  | some l => l
+  | .none => []
+
+/-- the weekly part of `eval`, entered with the earliest transition so far -/
+def evalWeekly (cfg : Cfg) (d : Date) (t : Time) (e : Time) : Except SErr (Nat × Time) :=
+  match cfg.weekly with
+  | .none => .ok (cfg.dflt, e)
+  | some wk =>
+    if wk.isEmpty then .ok (cfg.dflt, e)          -- `if sched_obj.weeklySchedule:` (length 0 is falsy)
+    else
+      match weeklyLookup wk d.w with
+      | .error x => .error x
+      | .ok day => .ok (scanDaily t cfg.dflt day cfg.dflt e)
+
 /-- `LocalScheduleInterpreter.eval`; `none` = not in the effective period -/
 def evalSchedule (cfg : Cfg) (d : Date) (t : Time) : Except SErr (Option (Nat × Time)) :=
   if !matchRange d cfg.effStart cfg.effEnd then .ok .none
   else
-    let excs := match cfg.exc with
-      | some l => l          -- `if sched_obj.exceptionSchedule:` (empty = falsy = no iterations)
-      | .none => []
-    match evalExceptions d t excs (fun _ => Slot.none) with
+    match evalExceptions d t (excList cfg) (fun _ => Slot.none) with
     | .error e => .error e
     | .ok sl =>
-      match scanSlots (slotList sl) nextDay with
-      | (some v, e) => .ok (some (v, e))
-      | (.none, e) =>
-        match cfg.weekly with
-        | .none => .ok (some (cfg.dflt, e))
-        | some [] => .ok (some (cfg.dflt, e))
-        | some wk =>
-          match weeklyLookup wk d.w with
-          | .error x => .error x
-          | .ok day => .ok (some (scanDaily t cfg.dflt day cfg.dflt e))
+      let r := scanSlots (slotList sl) nextDay
+      match r.1 with
+      | some v => .ok (some (v, r.2))             -- an exception is in control
+      | .none =>
+        match evalWeekly cfg d t r.2 with
+        | .error x => .error x
+        | .ok p => .ok (some p)
 
 /-- the next-transition time reported with the value -/
 def nextTransition (cfg : Cfg) (d : Date) (t : Time) : Except SErr (Option Time) :=
